@@ -424,7 +424,22 @@ def rule_verbatim(ck, facts):
                 ck.ok(R, "replace|%s|<pattern handed in>" % owner, {"fn": owner})
                 continue
             key = "replace|%s|%s" % (owner, pat)
-            if literal_arm:
+            # the repaired form: the replacement runs in a closure that a scanner of the generator feeds with the parts of
+            # the line outside string literals (the scanner compares characters with the quote and calls its argument)
+            scanned = False
+            if f.kind == "closure":
+                for g in lang.fns:
+                    if "::compiler::rustgen" not in g.path or g.kind not in ("fn", "assoc"):
+                        continue
+                    quote = any(st[KIND] == "a" and any(isinstance(o, list) and o and o[0] == "c" and len(o) > 3 and o[1] == "i" and o[2] == "char" and str(o[3]) == "34" for o in (st[5][2:4] if st[5][0] == "bin" else [])) for _, st in g.all_stmts()) or any(
+                        t2[KIND] == "switch" and any(str(v) == "34" for v, _ in t2[6]) and "char" in str(t2[5]) for t2 in (g.term(b2) for b2 in range(g.nblocks())))
+                    calls_param = any(callee(t2) is None or (callee(t2) or "").split("::")[-1] in ("call", "call_mut", "call_once") for _, t2 in g.calls())
+                    handed = any((callee(t2) or "") == g.path for h in facts.family(roles.LANG, f.root) for _, t2 in h.calls())
+                    if quote and calls_param and handed:
+                        scanned = True
+            if scanned:
+                ck.ok(R, key, {"fn": owner, "pattern": pat, "applied_to": "text outside string literals"})
+            elif literal_arm:
                 ck.bad(R, key, "%s rewrites every occurrence of %r in generated text, including occurrences inside a string literal of the program that was written into that text: `\"what?\"` becomes `\"what.unwrap()\"` in the transpiled program" % (f.short, pat), f.where(t))
             else:
                 ck.ok(R, key, {"fn": owner, "pattern": pat, "literals_in_generated_text": False})
@@ -435,6 +450,7 @@ def run(ck, facts, tier):
     rule_state_borrow(ck, facts)
     rule_word_cursor(ck, facts)
     rule_word_advance(ck, facts)
+    rule_verbatim(ck, facts)
     if "mimium_rust_template" in facts.files:
         from ..rules import saverestore
 
